@@ -435,7 +435,7 @@ def cooccurence(f, direction, output=None, symmetric=True, distance=1):
         mf = f.max()
         output = np.zeros((mf+1, mf+1), np.int32)
     else:
-        assert np.min(output.shape) >= f.max(), 'mahotas.texture.cooccurence: output is not large enough'
+        assert np.min(output.shape) > f.max(), 'mahotas.texture.cooccurence: output is not large enough'
         assert output.dtype == np.int32, 'mahotas.texture.cooccurence: output is not of type np.int32'
         output.fill(0)
 
